@@ -81,6 +81,25 @@ def log_event(*ev):
     EVENT_LOG.append(ev)
 
 
+class AGen:
+    """A generator object that has not run yet (created by calling a generator function)."""
+    def __init__(self, info, env, module):
+        self.info = info
+        self.env = env
+        self.module = module
+        self.done = False
+
+    def __repr__(self):
+        return f'<generator {self.info.qname}>'
+
+
+class _GenEscape(Exception):
+    """An exception / return / break raised by the BODY of a for loop while the generator it iterates is being run
+    with the body as a callback: it must pass through the generator's frames untouched."""
+    def __init__(self, inner):
+        self.inner = inner
+
+
 class AbsRaise(Exception):
     def __init__(self, exc, node, implicit=False, msg=''):
         self.exc = exc
@@ -159,7 +178,7 @@ def handler_names(h: ast.ExceptHandler):
 
 
 class AbsInt:
-    def __init__(self, folder: Folder, summaries=None, max_depth=14, extra_exc_parents=None):
+    def __init__(self, folder: Folder, summaries=None, max_depth=30, extra_exc_parents=None):
         self.f = folder
         self.p = folder.p
         self.summaries = summaries or {}     # qname -> callable(interp, args, kwargs, node)
@@ -174,6 +193,8 @@ class AbsInt:
         self._yields = []               # collectors of the generators being (eagerly) evaluated
         self.module_globals = {}        # module name -> ADict written through globals()
         self.builtin_summaries = {}     # builtin name (open, print...) -> callable(interp, args, kwargs, node)
+        self._cm_stack = []             # with-bodies waiting to run at the yield of a @contextmanager generator
+        self.global_store = {}          # (module name, global name) -> value written through a `global` declaration
         self.method_hooks = []          # callables (interp, base, name, args, kwargs, node) -> value | _NO
 
     # --------------------------------------------------------------- explore
@@ -187,7 +208,7 @@ class AbsInt:
             self.depth = 0
             EVENT_LOG.clear()
             try:
-                v = thunk()
+                v = self.consume(thunk())
                 out = Outcome('return', v)
             except AbsRaise as e:
                 out = Outcome('raise', exc=e.exc, node=e.node, implicit=e.implicit)
@@ -203,6 +224,16 @@ class AbsInt:
                 raise Unsupported('too many abstract outcomes')
         return results
 
+    def consume(self, v):
+        """Run generator objects (also inside tuples/lists) to completion: what a caller doing list(gen) would see."""
+        if isinstance(v, AGen):
+            return AList(self.run_generator(v), 'generator')
+        if isinstance(v, tuple):
+            return tuple(self.consume(x) for x in v)
+        if isinstance(v, list):
+            return [self.consume(x) for x in v]
+        return v
+
     def decide(self, node, why=''):
         i = len(self._trace)
         choice = self._choices[i] if i < len(self._choices) else True
@@ -213,6 +244,10 @@ class AbsInt:
     def call_function(self, info, args, kwargs, node=None):
         if info.qname in self.summaries:
             return self.summaries[info.qname](self, args, kwargs, node)
+        for d in info.node.decorator_list:
+            dn = unparse(d.func) if isinstance(d, ast.Call) else unparse(d)
+            if dn.split('.')[-1] not in _SAFE_DECORATORS:
+                raise Unsupported(f'decorator @{dn} on {info.qname} is not modelled (it may cache or alter the function)')
         if self.depth >= self.max_depth:
             return Opaque(f'call depth at {info.qname}')
         fn = info.node
@@ -231,7 +266,7 @@ class AbsInt:
                 di = i - (len(params) - len(a.defaults))
                 if di < 0:
                     raise AbsRaise('TypeError', node, implicit=True, msg=f'missing argument {p}')
-                env[p] = self.ev(a.defaults[di], {}, info.module)
+                env[p] = self.ev_default(a.defaults[di], info.module)
         if len(args) > len(params):
             if a.vararg:
                 env[a.vararg.arg] = AList(args[len(params):], 'tuple')
@@ -243,7 +278,7 @@ class AbsInt:
             if ko.arg in kwargs:
                 env[ko.arg] = kwargs.pop(ko.arg)
             elif kd is not None:
-                env[ko.arg] = self.ev(kd, {}, info.module)
+                env[ko.arg] = self.ev_default(kd, info.module)
         if a.kwarg:
             env[a.kwarg.arg] = ADict(kwargs)
         elif kwargs:
@@ -251,22 +286,59 @@ class AbsInt:
         self.inlined.add(info.qname)
         self.p.consulted.add(info.module.relpath)
         self.depth += 1
-        is_gen = _is_generator(fn)
-        if is_gen:
-            self._yields.append([])
+        gl = _global_names(fn)
+        if gl:
+            env['__globals__'] = gl
+        if getattr(self, '_cm_pending', None) is not None:
+            env['__cm__'] = self._cm_pending
+            self._cm_pending = None
+        if _is_generator(fn):
+            self.depth -= 1
+            cb = env.pop('__cm__', None)
+            g = AGen(info, env, info.module)
+            if cb is not None:
+                # a @contextmanager generator used by a with statement: run it now, the with-body runs at the yield
+                self.run_generator(g, cb)
+                return None
+            return g
+        log_event('enter', info.qname, args[0] if args else None)
         try:
             self.ex_block(fn.body, env, info.module)
         except _Ret as r:
-            if is_gen:
-                return AList(self._yields[-1], 'generator')
             return r.v
         finally:
             self.depth -= 1
-            if is_gen:
-                collected = self._yields.pop()
-        if is_gen:
-            return AList(collected, 'generator')
         return None
+
+    def ev_default(self, expr, module):
+        """A parameter default is evaluated once, when the def statement runs (import time): later writes to module globals
+        are not seen by it."""
+        saved = self.global_store, self.global_overrides
+        self.global_store, self.global_overrides = {}, {}
+        try:
+            return self.ev(expr, {}, module)
+        finally:
+            self.global_store, self.global_overrides = saved
+
+    def run_generator(self, g: 'AGen', on_yield=None):
+        """Run a generator to completion.  Without a callback the yielded values are collected (eager consumption:
+        list(), extend(), sorted()...); with a callback it is called at every yield (lazy for-loop / with-statement)."""
+        if g.done:
+            return []
+        g.done = True
+        collected = []
+        self._yields.append((collected, on_yield))
+        self.depth += 1
+        a0 = g.info.node.args.posonlyargs + g.info.node.args.args
+        log_event('enter', g.info.qname, g.env.get(a0[0].arg) if a0 else None)
+        try:
+            self.ex_block(g.info.node.body, g.env, g.module)
+        except _Ret:
+            pass
+        finally:
+            self.depth -= 1
+            self._yields.pop()
+        return collected
 
     # ------------------------------------------------------------- statements
     def ex_block(self, stmts, env, m):
@@ -304,6 +376,29 @@ class AbsInt:
             pass
         elif isinstance(st, ast.For):
             it = self.ev(st.iter, env, m)
+            gen = self.as_generator(it, st)
+            if gen is not None:
+                state = {'broke': False}
+
+                def body(v):
+                    try:
+                        self.assign(st.target, v, env, m)
+                        self.ex_block(st.body, env, m)
+                    except _Cont:
+                        return
+                    except _Brk:
+                        state['broke'] = True
+                        raise _GenEscape(None)
+                    except (_Ret, AbsRaise) as ex:
+                        raise _GenEscape(ex)
+                try:
+                    self.run_generator(gen, body)
+                except _GenEscape as ge:
+                    if ge.inner is not None:
+                        raise ge.inner
+                if not state['broke']:
+                    self.ex_block(st.orelse, env, m)
+                return
             broke = False
             for item in self.iterate(it, st):
                 self.assign(st.target, item, env, m)
@@ -397,13 +492,61 @@ class AbsInt:
         elif isinstance(st, ast.Assert):
             pass
         elif isinstance(st, ast.With):
-            for item in st.items:
-                if item.optional_vars is not None:
-                    v = self.ev(item.context_expr, env, m)
-                    self.assign(item.optional_vars, v, env, m)
-            self.ex_block(st.body, env, m)
+            self.ex_with(st, 0, env, m)
         else:
             raise Unsupported(f'abstract interpreter: unsupported statement {type(st).__name__} at line {st.lineno}')
+
+    def ex_with(self, st, i, env, m):
+        """with item_i, ...: body.  A context manager that is a @contextmanager generator of the program is
+        interpreted faithfully: its body runs up to the yield, the with-body runs AT the yield (so an exception
+        of the body is raised there, inside the generator's try/finally), then the rest of the generator runs."""
+        if i >= len(st.items):
+            self.ex_block(st.body, env, m)
+            return
+        item = st.items[i]
+        cm = None
+        if isinstance(item.context_expr, ast.Call):
+            try:
+                fval = self.ev(item.context_expr.func, env, m)
+            except AbsRaise:
+                fval = None
+            if isinstance(fval, FuncRef) and any(
+                    (isinstance(d, ast.Name) and d.id == 'contextmanager') or (isinstance(d, ast.Attribute) and d.attr == 'contextmanager')
+                    for d in fval.info.node.decorator_list):
+                cm = fval
+        if cm is not None:
+            args = self._elts(item.context_expr.args, env, m)
+            kwargs = {kw.arg: self.ev(kw.value, env, m) for kw in item.context_expr.keywords if kw.arg}
+
+            def at_yield(value):
+                if item.optional_vars is not None:
+                    self.assign(item.optional_vars, value, env, m)
+                self.ex_with(st, i + 1, env, m)
+            self._cm_stack.append(at_yield)
+            self._cm_pending = at_yield
+            try:
+                self.call_function(cm.info, args, kwargs, item.context_expr)
+            finally:
+                self._cm_pending = None
+                self._cm_stack.pop()
+            return
+        if item.optional_vars is not None:
+            v = self.ev(item.context_expr, env, m)
+            self.assign(item.optional_vars, v, env, m)
+        else:
+            # locks and similar: evaluate for the event log only when it is a scripted double
+            try:
+                v = self.ev(item.context_expr, env, m)
+            except AbsRaise:
+                raise
+            if hasattr(v, 'absint_getattr'):
+                log_event('with-enter', v)
+                try:
+                    self.ex_with(st, i + 1, env, m)
+                finally:
+                    log_event('with-exit', v)
+                return
+        self.ex_with(st, i + 1, env, m)
 
     def exc_name(self, st: ast.Raise, env, m):
         if st.exc is None:
@@ -415,6 +558,10 @@ class AbsInt:
 
     def assign(self, t, v, env, m):
         if isinstance(t, ast.Name):
+            if t.id in env.get('__globals__', ()):
+                self.global_store[(m.name, t.id)] = v
+                log_event('global-store', m.name, t.id, v)
+                return
             env[t.id] = v
         elif isinstance(t, (ast.Tuple, ast.List)):
             items = self.iterate(v, t)
@@ -519,20 +666,44 @@ class AbsInt:
         if not self._yields:
             raise Unsupported('yield outside an abstractly evaluated generator')
         v = self.ev(e.value, env, m) if e.value is not None else None
-        self._yields[-1].append(v)
+        collected, cb = self._yields[-1]
         log_event('yield', v)
+        if cb is not None:
+            # the consumer (for body / with body) runs now, in the frame of the function that contains it: take this
+            # generator's frame off the stack meanwhile, so that a `yield` in the consumer goes to ITS generator
+            frame = self._yields.pop()
+            try:
+                cb(v)
+            finally:
+                self._yields.append(frame)
+            log_event('resume', env.get('self'))
+            return None
+        collected.append(v)
         return None
 
     def _v_YieldFrom(self, e, env, m):
         if not self._yields:
             raise Unsupported('yield from outside an abstractly evaluated generator')
-        for v in self.iterate(self.ev(e.value, env, m), e, keep_vars=True):
-            self._yields[-1].append(v)
+        collected, cb = self._yields[-1]
+        src = self.ev(e.value, env, m)
+        if cb is not None:
+            def relay(v):
+                frame = self._yields.pop()
+                try:
+                    cb(v)
+                finally:
+                    self._yields.append(frame)
+            self.for_each(src, e, relay)
+        else:
+            for v in self.iterate(src, e, keep_vars=True):
+                collected.append(v)
         return None
 
     def _v_Name(self, e, env, m):
-        if e.id in env:
+        if e.id in env and e.id not in env.get('__globals__', ()):
             return env[e.id]
+        if m is not None and (m.name, e.id) in self.global_store:
+            return self.global_store[(m.name, e.id)]
         if m is not None and (m.name, e.id) in self.global_overrides:
             return self.global_overrides[(m.name, e.id)]
         try:
@@ -942,11 +1113,13 @@ class AbsInt:
                 return bool(v)
             except Exception:
                 return self.decide(node, 'truth')
-        if isinstance(v, (FuncRef, ClassRef, ExtRef)):
+        if isinstance(v, (FuncRef, ClassRef, ExtRef, AGen)):
             return True
         if isinstance(v, tuple) and v and v[0] == 'bound':
             return True
         if isinstance(v, AList):
+            if v.kind == 'deque':
+                log_event('deque', 'test', v, node)
             if v.minlen() > 0:
                 return True
             if not v.items:
@@ -1124,8 +1297,31 @@ class AbsInt:
             return Opaque('slice end inside symbolic sequence')
         return AList(out, al.kind)
 
+    def as_generator(self, it, node):
+        """AGen for a generator object or an object whose __iter__ is a generator function (evaluated lazily in for loops)."""
+        if isinstance(it, AGen):
+            return it
+        if isinstance(it, AObj) and it.cls is not None:
+            o, fn = self.p.lookup_method(it.cls, '__iter__')
+            if fn is not None and _is_generator(fn.node):
+                r = self.call_function(fn, [it], {}, node)
+                return r if isinstance(r, AGen) else None
+        return None
+
+    def for_each(self, it, node, cb):
+        gen = self.as_generator(it, node)
+        if gen is not None:
+            self.run_generator(gen, cb)
+            return
+        for v in self.iterate(it, node, keep_vars=True):
+            cb(v)
+
     def iterate(self, it, node, keep_vars=False):
+        if isinstance(it, AGen):
+            return self.run_generator(it)
         if isinstance(it, AList):
+            if it.kind == 'deque':
+                log_event('deque', 'iter', it, node)
             out = []
             for x in it.items:
                 if isinstance(x, SeqVar) and not keep_vars:
@@ -1333,6 +1529,8 @@ class AbsInt:
                 return AList(items, f.__name__)
             if isinstance(src, ADict):
                 return list(src.d.keys())
+            if isinstance(src, AGen) or (isinstance(src, AObj) and src.cls is not None and self.p.lookup_method(src.cls, '__iter__')[1] is not None):
+                return AList(self.iterate(src, node, keep_vars=True), f.__name__)
             if isinstance(src, (list, tuple)) and not _is_concrete(src):
                 return AList(list(src), f.__name__)
             if _is_concrete(src):
@@ -1341,6 +1539,8 @@ class AbsInt:
                 except Exception:
                     raise AbsRaise('TypeError', node, implicit=True)
             return Opaque(f'{f.__name__}()')
+        if f is reversed and len(args) == 1 and isinstance(args[0], (AList, list, tuple)):
+            return AList(list(reversed(self.iterate(args[0], node, keep_vars=True))), 'list')
         if f is zip:
             seqs = [self.iterate(a, node) for a in args]
             return [AList(list(t), 'tuple') for t in zip(*seqs)]
@@ -1420,6 +1620,27 @@ class AbsInt:
             return AList(r, 'bytearray')
         if isinstance(f, tuple) and len(f) == 3 and f[0] == 'attr' and f[1] is str and f[2] == 'join' and len(args) == 2:
             return self.method(args[0], 'join', [args[1]], {}, node)
+        if f in (any, all) and len(args) == 1 and isinstance(args[0], (AList, list)) and not _is_concrete(args[0]):
+            want = f is any
+            for it in self.iterate(args[0], node):
+                if self.truth(it, node) == want:
+                    return want
+            return not want
+        if f in (min, max) and len(args) == 2 and (isinstance(args[0], AV) or isinstance(args[1], AV)):
+            x, y = _as_av(args[0]), _as_av(args[1])
+            if x is not None and y is not None and not x.is_top and not y.is_top:
+                (xl, xh), (yl, yh) = x.interval(), y.interval()
+                if f is min:
+                    if xh <= yl:
+                        return args[0]
+                    if yh <= xl:
+                        return args[1]
+                else:
+                    if xl >= yh:
+                        return args[0]
+                    if yl >= xh:
+                        return args[1]
+            return Opaque(f'{f.__name__} of overlapping ranges')
         if f is bool and len(args) == 1 and not _is_concrete(args[0]):
             return self.truth(args[0], node)
         if f is ord and len(args) == 1 and isinstance(args[0], AList):
@@ -1436,10 +1657,6 @@ class AbsInt:
                 if k is None:
                     return AList([AV.TOP('divmod by a non power of two')] * 2, 'tuple')
                 return AList([x.shr(k), x.mod_pow2(k)], 'tuple')
-        if f in (min, max) and len(args) == 2:
-            x, y = _as_av(args[0]), _as_av(args[1])
-            if x is not None and y is not None and not (x.is_const and y.is_const):
-                return ('minmax', f.__name__, args[0], args[1])
         if f in _BUILTINS.values() and all(_is_concrete(a) for a in args) and all(_is_concrete(v) for v in kwargs.values()):
             try:
                 r = f(*args, **kwargs)
@@ -1498,6 +1715,8 @@ class AbsInt:
     def length_of(self, v, node=None):
         if hasattr(v, 'absint_len'):
             return v.absint_len()
+        if isinstance(v, AList) and v.kind == 'deque':
+            log_event('deque', 'test', v, node)
         if isinstance(v, AList):
             c = sum(1 for x in v.items if not isinstance(x, SeqVar))
             c = 0
@@ -1530,6 +1749,8 @@ class AbsInt:
         return Opaque('len')
 
     def method(self, base, name, args, kwargs, node):
+        if isinstance(base, AList) and base.kind == 'deque':
+            log_event('deque', name, base, node)
         for hook in self.method_hooks:
             r = hook(self, base, name, args, kwargs, node)
             if r is not _NO:
@@ -1634,13 +1855,20 @@ class AbsInt:
         if isinstance(base, int) and not isinstance(base, bool) and name == 'bit_length' and not args:
             return base.bit_length()
         if isinstance(base, str):
-            if all(_is_concrete(a) for a in args) and all(_is_concrete(v) for v in kwargs.values()) and name in (
-                    'format', 'join', 'replace', 'split', 'startswith', 'endswith', 'lower', 'upper', 'strip'):
+            if all(_is_concrete(a) for a in args) and all(_is_concrete(v) for v in kwargs.values()) and hasattr(str, name) \
+                    and not name.startswith('_'):
                 try:
-                    return getattr(base, name)(*args, **kwargs)
-                except Exception:
-                    return Opaque('str method')
+                    r = getattr(base, name)(*args, **kwargs)
+                except (ValueError, TypeError, IndexError, KeyError, UnicodeError) as ex:
+                    raise AbsRaise(type(ex).__name__ if not isinstance(ex, UnicodeError) else 'UnicodeError', node, implicit=True)
+                return list(r) if isinstance(r, (map, filter)) else r
             return Opaque('str')
+        if isinstance(base, (bytes, tuple)) and _is_concrete(base) and all(_is_concrete(a) for a in args) and hasattr(type(base), name) \
+                and not name.startswith('_') and not kwargs:
+            try:
+                return getattr(base, name)(*args)
+            except (ValueError, TypeError, IndexError, UnicodeError) as ex:
+                raise AbsRaise(type(ex).__name__, node, implicit=True)
         if isinstance(base, Opaque):
             return Opaque(f'method {name} of opaque')
         return _NO
@@ -1676,7 +1904,25 @@ class LenV:
 _NO = object()
 
 
+_SAFE_DECORATORS = {'property', 'classmethod', 'staticmethod', 'contextmanager', 'setter', 'deleter', 'getter', 'abstractmethod', 'wraps'}
 _gen_cache = {}
+_glob_cache = {}
+
+
+def _global_names(fn):
+    k = id(fn)
+    if k not in _glob_cache:
+        names = set()
+        todo = list(fn.body)
+        while todo:
+            n = todo.pop()
+            if isinstance(n, ast.Global):
+                names.update(n.names)
+            if isinstance(n, (ast.FunctionDef, ast.AsyncFunctionDef, ast.Lambda, ast.ClassDef)):
+                continue
+            todo.extend(ast.iter_child_nodes(n))
+        _glob_cache[k] = frozenset(names)
+    return _glob_cache[k]
 
 
 def _is_generator(fn):
